@@ -206,8 +206,9 @@ type rwStreamInc struct {
 	returned bool
 	done     chan struct{}
 	ended    bool // the harness ended/broke it
-	openGate chan struct{}
-	snap     *rwRegSnapshot
+	openGate  chan struct{}
+	openFails bool // the proxy's reverse stream-open call fails for this incarnation
+	snap      *rwRegSnapshot
 }
 
 // rwRegSnapshot: the registry entries of a shard right after an incarnation registered (= that incarnation's own).
@@ -311,8 +312,12 @@ func (w *rwWorld) open(side string, idx int) *rwStreamInc { return w.openHeld(si
 
 // openHeld: with holdOpen the proxy's reverse stream-open call does not complete until inc.openGate is closed.
 func (w *rwWorld) openHeld(side string, idx int, holdOpen bool) *rwStreamInc {
+	return w.openOpt(side, idx, holdOpen, false)
+}
+
+func (w *rwWorld) openOpt(side string, idx int, holdOpen, openFails bool) *rwStreamInc {
 	time.Sleep(time.Nanosecond) // distinct registration timestamps, as wall clocks give
-	inc := &rwStreamInc{done: make(chan struct{})}
+	inc := &rwStreamInc{done: make(chan struct{}), openFails: openFails}
 	if holdOpen {
 		inc.openGate = make(chan struct{})
 	}
@@ -331,6 +336,9 @@ func (w *rwWorld) openHeld(side string, idx int, holdOpen bool) *rwStreamInc {
 	inc.client = &vfAdminClient{OnOpen: func(_ context.Context, cs *vfClientStream) error {
 		if inc.openGate != nil {
 			<-inc.openGate
+		}
+		if inc.openFails {
+			return status.Error(codes.Unavailable, "cannot open the reverse stream")
 		}
 		inc.cs = cs
 		cs.onCloseSend = func() { cs.PushEOF() } // a well-behaved peer ends the stream once the proxy half-closes
